@@ -44,19 +44,21 @@ structure Inv (log : Log) (s : State) : Prop where
   hk : ∀ c, heldOk (s.callers c)
   tk : ∀ c, todoOk (s.callers c)
   so : ∀ c, sentOk (s.callers c)
+  ni : s.cfg.ident = [] → ∀ c, identFree (s.callers c)
   sb : ∀ c i, sendAt log i = some c → NoRetAfter log c i → 0 < (s.callers c).sent
   b : ∀ c i, sendAt log i = some c → NoRetAfter log c i → (s.callers c).held = 0 → (s.callers c).pc = .done
   cc : ∀ c i j c', sendAt log i = some c → NoRetAfter log c i → 0 < (s.callers c).held → i < j →
         sendAt log j = some c' → c' = c
 
 theorem inv_init (cfg : Cfg) (cbs : List Nat) : Inv [] { cfg := cfg, cbsReg := cbs } := by
-  refine ⟨?_, ?_, ?_, ?_, ?_, ?_, ?_, ?_, ?_⟩
+  refine ⟨?_, ?_, ?_, ?_, ?_, ?_, ?_, ?_, ?_, ?_⟩
   · intro c h; simp at h
   · intro c h; simp at h
   · intro _; rfl
   · intro c; simp [heldOk]
   · intro c; simp [todoOk]
   · intro c; simp [sentOk, multiPc, prePc]
+  · intro _ c; exact ⟨rfl, rfl⟩
   · intro c i h; simp [sendAt, evAt] at h
   · intro c i h; simp [sendAt, evAt] at h
   · intro c i j c' h; simp [sendAt, evAt] at h
@@ -68,15 +70,16 @@ theorem noRetAfter_restrict {log : Log} {e : TEv} {c i : Nat} (h : NoRetAfter (l
 
 /-- an event that leaves callers and lock alone (device events) -/
 theorem inv_env {log : Log} {s s' : State} (e : TEv) (hi : Inv log s)
-    (hc : s'.callers = s.callers) (ho : s'.owner = s.owner) (hd : s'.depth = s.depth)
+    (hc : s'.callers = s.callers) (ho : s'.owner = s.owner) (hd : s'.depth = s.depth) (hcf : s'.cfg = s.cfg)
     (hs : sendAt (log ++ [e]) log.length = none) : Inv (log ++ [e]) s' := by
-  refine ⟨?_, ?_, ?_, ?_, ?_, ?_, ?_, ?_, ?_⟩
+  refine ⟨?_, ?_, ?_, ?_, ?_, ?_, ?_, ?_, ?_, ?_⟩
   · intro c h; rw [hc] at h; rw [ho]; exact hi.li1 c h
   · intro c h; rw [ho] at h; rw [hd, hc]; exact hi.li2 c h
   · intro h; rw [ho] at h; rw [hd]; exact hi.li3 h
   · intro c; rw [hc]; exact hi.hk c
   · intro c; rw [hc]; exact hi.tk c
   · intro c; rw [hc]; exact hi.so c
+  · intro hid c; rw [hc]; rw [hcf] at hid; exact hi.ni hid c
   · intro c i h1 h2
     have hlt : i < log.length := by
       have := sendAt_lt_length _ _ _ h1
@@ -142,7 +145,7 @@ theorem inv_caller {log : Log} {s s' : State} (e : TEv) (c0 : Nat) (hw : e.ev.wh
   have tk' := step_todoOk s s' e.t c0 e.ev h (hi.tk c0)
   have so' := step_sentOk s s' e.t c0 e.ev h (hi.so c0) (hi.tk c0)
   have hoth : ∀ x, x ≠ c0 → s'.callers x = s.callers x := step_others s s' e.t c0 e.ev h
-  refine ⟨?_, ?_, ?_, ?_, ?_, ?_, ?_, ?_, ?_⟩
+  refine ⟨?_, ?_, ?_, ?_, ?_, ?_, ?_, ?_, ?_, ?_⟩
   · -- li1
     intro c hc
     cases hlock with
@@ -212,6 +215,11 @@ theorem inv_caller {log : Log} {s s' : State} (e : TEv) (c0 : Nat) (hw : e.ev.wh
     by_cases hcc : c = c0
     · subst hcc; exact so'
     · rw [hoth c hcc]; exact hi.so c
+  · intro hid c
+    rw [step_cfg s s' e.t c0 e.ev h] at hid
+    by_cases hcc : c = c0
+    · subst hcc; exact step_identFree s s' e.t c e.ev h hid (hi.ni hid c)
+    · rw [hoth c hcc]; exact hi.ni hid c
   · -- sb
     intro c i h1 h2
     have hile := sendAt_lt_length _ _ _ h1
@@ -310,7 +318,7 @@ theorem inv_caller {log : Log} {s s' : State} (e : TEv) (c0 : Nat) (hw : e.ev.wh
 
 
 theorem inv_clock {log : Log} {s : State} (t : Nat) (hi : Inv log s) : Inv log { s with clock := t } :=
-  ⟨hi.li1, hi.li2, hi.li3, hi.hk, hi.tk, hi.so, hi.sb, hi.b, hi.cc⟩
+  ⟨hi.li1, hi.li2, hi.li3, hi.hk, hi.tk, hi.so, hi.ni, hi.sb, hi.b, hi.cc⟩
 
 theorem sendAt_last_not_send {log : Log} {e : TEv} (h : ∀ c a b d, e.ev ≠ .send c a b d) :
     sendAt (log ++ [e]) log.length = none := by
@@ -346,12 +354,12 @@ theorem inv_step {log : Log} {s s' : State} (e : TEv) (hi : Inv log s) (h : step
         split at h
         · split at h
           · simp at h
-          · simp only [Option.some.injEq] at h; subst h; exact inv_env e hi1 rfl rfl rfl hs
-        · simp only [Option.some.injEq] at h; subst h; exact inv_env e hi1 rfl rfl rfl hs
+          · simp only [Option.some.injEq] at h; subst h; exact inv_env e hi1 rfl rfl rfl rfl hs
+        · simp only [Option.some.injEq] at h; subst h; exact inv_env e hi1 rfl rfl rfl rfl hs
       · -- devclose
-        split at h <;> (simp only [Option.some.injEq] at h; subst h; exact inv_env e hi1 rfl rfl rfl hs)
+        split at h <;> (simp only [Option.some.injEq] at h; subst h; exact inv_env e hi1 rfl rfl rfl rfl hs)
       · -- dopoll
-        simp only [Option.some.injEq] at h; subst h; exact inv_env e hi1 rfl rfl rfl hs
+        simp only [Option.some.injEq] at h; subst h; exact inv_env e hi1 rfl rfl rfl rfl hs
 
 theorem inv_exec_gen : ∀ (evs pre : List TEv) (s0 s : State), Inv pre s0 → exec s0 evs = some s → Inv (pre ++ evs) s
   | [], pre, s0, s, hi, h => by simp [exec] at h; subst h; simpa using hi
